@@ -1007,7 +1007,7 @@ impl ASN1Value {
                     inner_value.link_with_type(
                         tlds,
                         &option.ty,
-                        Some(&option.ty.as_str().into_owned()),
+                        Some(&Self::nested_type_name(&option.ty, &option.name, type_name)),
                     )
                 } else {
                     Err(grammar_error!(
@@ -1028,12 +1028,10 @@ impl ASN1Value {
                 } = &mut **value
                 {
                     if let Some(option) = c.options.iter().find(|o| &o.name == variant_name) {
+                        let option_type_name =
+                            Self::nested_type_name(&option.ty, &option.name, enum_name.as_ref());
                         *type_name = enum_name;
-                        inner_value.link_with_type(
-                            tlds,
-                            &option.ty,
-                            Some(&option.ty.as_str().into_owned()),
-                        )
+                        inner_value.link_with_type(tlds, &option.ty, Some(&option_type_name))
                     } else {
                         Err(grammar_error!(
                             LinkerError,
@@ -1507,6 +1505,17 @@ impl ASN1Value {
             })
             .collect::<Result<Vec<_>, _>>()?;
         Ok(ASN1Value::SequenceOrSet(struct_value))
+    }
+
+    /// The name under which the type of a component or alternative is known:
+    /// its own name, or an internal name for an anonymous type nested in `parent`
+    fn nested_type_name(ty: &ASN1Type, name: &str, parent: Option<&String>) -> String {
+        match (ty.is_builtin_type(), parent) {
+            (true, Some(parent)) => {
+                INTERNAL_NESTED_TYPE_NAME_PREFIX.to_owned() + name + "$" + parent
+            }
+            _ => ty.as_str().into_owned(),
+        }
     }
 
     fn link_array_like(
